@@ -156,6 +156,29 @@ fn main() {
                 health(addr).await;
             }
         }
+        // 1b. bursts of connections that are reset as soon as they are established: faster than the accept loop
+        // drains its backlog, so some are already reset when accept() hands them out
+        for burst in 0..(if thorough { 12 } else { 4 }) {
+            f += 1;
+            let n = if thorough { 600 } else { 300 };
+            emit("fault", json!({"f": f, "kind": "reset_burst", "len": 0, "end": "rst", "detail": {"connections": n, "burst": burst}}));
+            let mut tasks = vec![];
+            for _ in 0..8 {
+                tasks.push(tokio::spawn(async move {
+                    for _ in 0..n / 8 {
+                        if let Ok(s) = TcpStream::connect(addr).await {
+                            let _ = s.set_linger(Some(Duration::from_secs(0)));
+                            drop(s);
+                        }
+                    }
+                }));
+            }
+            for t in tasks {
+                let _ = t.await;
+            }
+            emit("fault_closed", json!({"f": f, "why": "client reset"}));
+            health(addr).await;
+        }
         // 2. random bytes
         for i in 0..(if thorough { 400 } else { 80 }) {
             f += 1;
@@ -253,7 +276,13 @@ fn main() {
             emit("fault_closed", json!({"f": hf, "why": "released"}));
         }
         health(addr).await;
-        let _ = tokio::time::timeout(Duration::from_secs(40), server.close()).await;
+        // close() itself panics if the serving task has died: that is data about the server, not a driver failure
+        match tokio::time::timeout(Duration::from_secs(40), tokio::spawn(server.close())).await {
+            Ok(Ok(Ok(()))) => {}
+            Ok(Ok(Err(e))) => emit("close_failed", json!({"why": e})),
+            Ok(Err(e)) => emit("close_failed", json!({"why": format!("close() panicked: {}", e)})),
+            Err(_) => emit("close_failed", json!({"why": "timeout"})),
+        }
 
         // ------------------------------------------------------------------
         // 8. the same over TLS: stalled, truncated, garbage and plain-HTTP
@@ -317,7 +346,13 @@ fn main() {
             emit("fault_closed", json!({"f": hf, "why": "released"}));
         }
         tls_health(connector.clone()).await;
-        let _ = tokio::time::timeout(Duration::from_secs(40), tls_server.close()).await;
+        // close() itself panics if the serving task has died: that is data about the server, not a driver failure
+        match tokio::time::timeout(Duration::from_secs(40), tokio::spawn(tls_server.close())).await {
+            Ok(Ok(Ok(()))) => {}
+            Ok(Ok(Err(e))) => emit("close_failed", json!({"why": e})),
+            Ok(Err(e)) => emit("close_failed", json!({"why": format!("close() panicked: {}", e)})),
+            Err(_) => emit("close_failed", json!({"why": "timeout"})),
+        }
     });
     let lines = dropshot::verif::take_memory();
     std::fs::write(&out, lines.join("\n") + "\n").unwrap();
